@@ -42,6 +42,9 @@ def replay_artifact(exe, path, work, timeout=100):
 def run_fuzz(r, target, pid, secs, empty_corpus_too=False):
     d = buildmod.build(("fuzz",))
     exe = os.path.join(d, "fuzz", target)
+    if not os.path.exists(exe):
+        r.stats.notes.append("fuzz target %s not built" % target)
+        return
     work = os.path.join(r.workdir, "fuzz")
     runs = [("seeded", True)] + ([("empty", False)] if empty_corpus_too else [])
     for tag, seeded in runs:
